@@ -230,7 +230,7 @@ func (l *CustomQueryListener) extractArguments(arguments []string) []Parameter {
 func (l *CustomQueryListener) inferExpressionType(argument string) (Parameter, error) {
 	argument = strings.TrimSpace(argument)
 	for _, entity := range l.selectList {
-		if strings.Contains(argument, entity.Alias) {
+		if argument == entity.Alias {
 			return Parameter{
 				Name:         entity.Alias,
 				Type:         entity.Entity,
